@@ -39,19 +39,3 @@ impl From<Errno> for IOError {
     #[verifier::external_body]
     fn from(e: Errno) -> (r: IOError) ensures r.raw() == Some(e.raw) { unimplemented!() }
 }
-
-
-/// `rustix::io::dup` (dup(2)): the copy shares the open file description but is NOT close-on-exec; the library's
-/// own duplication goes through `try_clone_to_owned` (F_DUPFD_CLOEXEC).  Modelled so that code using it is judged
-/// by the contracts instead of being outside the verified subset.
-pub mod rustix {
-    pub mod io {
-        use super::super::*;
-        #[verifier::external_body]
-        pub fn dup<Fd: AsFd>(fd: Fd) -> (r: Result<OwnedFd, Errno>)
-            ensures r matches Ok(n) ==> same_description(n.id(), fd.fd_id()) && lineage(n.id()) == lineage(fd.fd_id())
-                && is_procfs(n.id()) == is_procfs(fd.fd_id()) && mnt_checked(n.id()) == mnt_checked(fd.fd_id())
-                && mnt_of(n.id()) == mnt_of(fd.fd_id()) && ino_of(n.id()) == ino_of(fd.fd_id())
-        { unimplemented!() }
-    }
-}
